@@ -59,7 +59,7 @@ func cmdRun(args []string) {
 	fn := fs.String("fn", ".", "regexp on function keys")
 	only := fs.String("obl", "", "regexp on obligation names")
 	dump := fs.String("dump", "", "directory to dump queries of non-discharged obligations")
-	timeout := fs.Int("timeout", 10, "")
+	timeout := fs.Int("timeout", 20, "")
 	par := fs.Int("par", 16, "")
 	verbose := fs.Bool("v", false, "")
 	fs.Parse(args)
